@@ -957,10 +957,15 @@ class ConstEval(object):
                 if name == 'sort':
                     return None
             if isinstance(recv, dict):
-                if name == 'update' and len(args) == 1 and isinstance(
-                        args[0], dict):
-                    recv.update(args[0])
-                    return None
+                if name == 'update' and len(args) <= 1 and all(
+                        isinstance(a_, dict) for a_ in args):
+                    kw = {k.arg: self._eval(m, k.value, env, loc)
+                          for k in e.keywords if k.arg}
+                    if all(k.arg for k in e.keywords):
+                        for a_ in args:
+                            recv.update(a_)
+                        recv.update(kw)
+                        return None
                 if name == 'pop' and args:
                     return recv.pop(*args)
                 if name == 'get' and args:
@@ -987,6 +992,10 @@ class ConstEval(object):
             return _copy.copy(args[0])
         if q in ('dict',) and not args:
             return dict(kwargs)
+        if q in ('dict',) and len(args) == 1 and isinstance(args[0], dict):
+            d_ = dict(args[0])
+            d_.update(kwargs)
+            return d_
         if q in ('list', 'tuple', 'set') and len(args) <= 1:
             if not args:
                 return {'list': list, 'tuple': tuple, 'set': set}[q]()
